@@ -86,7 +86,23 @@ def build(repo=None):
     # Count facts used by the engine's str.count model are added there; here: count >= 0
     first = z3.SubString(text, 0, 1)
     rest = z3.SubString(text, 1, z3.Length(text) - 1)
-    for s1, o in eng.run(wloop.body, st):
+    def one_step(e, s):
+        """one iteration of the modifier loop: its test (leaving the loop when it is false counts as a `break`), then its body"""
+        from ..values import Outcome
+
+        outs = []
+        for s_t, tv in e.ev(wloop.test, s):
+            if is_raised(tv):
+                outs.append((s_t, Outcome("raise", tv.exc)))
+                continue
+            for s_b, holds in e.branch(s_t, e.truth(s_t, tv)):
+                if holds:
+                    outs.extend(e.run(wloop.body, s_b))
+                else:
+                    outs.append((s_b, Outcome("break")))
+        return outs
+
+    for s1, o in one_step(eng, st):
         paths += 1
         cur = {n: s1.env[n].t for n in flag_names}
         elem1 = s1.env["elem"]
